@@ -501,23 +501,30 @@ impl MediaStreamTrack for SampleStreamTrack {
 
     async fn recv(&self) -> MediaResult<MediaSample> {
         loop {
+            // Created before the checks below so that a `notify_waiters()` from `stop()` or from
+            // the last source drop issued after them is not lost.
+            let notified = self.notify.notified();
+
             if self.ended.load(Ordering::SeqCst) {
                 return Err(MediaError::EndOfStream);
             }
 
             {
                 let _pop_guard = self.pop_lock.lock();
+                // Read the flag before popping: if it is set, every push happened before it, so
+                // an empty queue really is drained.
+                let closed = self.source_closed.load(Ordering::Acquire);
                 if let Some(sample) = self.queue.pop() {
                     return Ok(sample);
                 }
 
-                if self.source_closed.load(Ordering::Acquire) {
+                if closed {
                     self.ended.store(true, Ordering::SeqCst);
                     return Err(MediaError::EndOfStream);
                 }
             }
 
-            self.notify.notified().await;
+            notified.await;
             if self.source_closed.load(Ordering::Acquire) && self.queue.is_empty() {
                 self.ended.store(true, Ordering::SeqCst);
                 return Err(MediaError::EndOfStream);
